@@ -18,7 +18,7 @@ import itertools
 import math
 from fractions import Fraction
 
-from vlib import core
+from vlib import core, crshist
 from vlib.core import cbool, cq, ctuple, cz
 
 ID = "C11"
@@ -330,6 +330,7 @@ SINU = "+proj=sinu +lon_0=0 +x_0=0 +y_0=0 +R=6371007.181 +units=m +no_defs"
 SINU_RESPELLED = "+proj=sinu +lon_0=0 +x_0=0 +y_0=0 +R=6371007.181 +units=m +no_defs +type=crs"
 AEA_CUSTOM = "+proj=aea +lat_1=-18 +lat_2=-36 +lat_0=0 +lon_0=134 +x_0=0 +y_0=0 +ellps=WGS84 +units=m +no_defs"
 LAEA_CUSTOM = "+proj=laea +lat_0=-25 +lon_0=134 +x_0=0 +y_0=0 +ellps=WGS84 +units=m +no_defs"
+TMERC_CUSTOM = "+proj=tmerc +lat_0=0 +lon_0=15 +k=1 +x_0=0 +y_0=0 +ellps=GRS80 +units=m +no_defs"
 NOEPSG_TARGETS = [SINU_RESPELLED, AEA_CUSTOM, LAEA_CUSTOM, "EPSG:4326", "EPSG:3577"]
 
 
@@ -855,8 +856,13 @@ def sample_source_points(src, k_edge, k_in):
     cx = np.clip(np.floor(np.linspace(0, nx, k_in)), 0, nx - 1) + 0.5
     cy = np.clip(np.floor(np.linspace(0, ny, k_in)), 0, ny - 1) + 0.5
     gx, gy = np.meshgrid(np.unique(cx), np.unique(cy))
-    px = np.concatenate([ex, gx.ravel()])
-    py = np.concatenate([ey, gy.ravel()])
+    # centres of the border pixels (all of them up to 4000 per side, else evenly spread)
+    bx = (np.arange(nx) if nx <= 4000 else np.unique(np.floor(np.linspace(0, nx - 1, 4000)))) + 0.5
+    by = (np.arange(ny) if ny <= 4000 else np.unique(np.floor(np.linspace(0, ny - 1, 4000)))) + 0.5
+    bpx = np.concatenate([bx, bx, np.full(len(by), 0.5), np.full(len(by), nx - 0.5)])
+    bpy = np.concatenate([np.full(len(bx), 0.5), np.full(len(bx), ny - 0.5), by, by])
+    px = np.concatenate([ex, gx.ravel(), bpx])
+    py = np.concatenate([ey, gy.ravel(), bpy])
     A = src.affine
     return A.a * px + A.b * py + A.c, A.d * px + A.e * py + A.f
 
@@ -874,6 +880,17 @@ def project(src_crs, dst_crs, wx, wy):
     x, y = _TR[key].transform(wx, wy)
     ok = np.isfinite(x) & np.isfinite(y)
     return x[ok], y[ok]
+
+
+def ref_same_units(a, b) -> bool:
+    """independent reference for 'the two CRSs share units': pyproj axis units of freshly built objects"""
+    import pyproj
+
+    def units(c):
+        p = pyproj.CRS.from_user_input(c.to_wkt())
+        return (p.is_geographic, tuple(sorted(ax.unit_name for ax in p.axis_info[:2])))
+
+    return units(a) == units(b)
 
 
 def projected_pixel_step(src, dst_crs):
@@ -920,12 +937,12 @@ def anchor_snap(scn):
     return (F(float(v[0])), F(float(v[1])))
 
 
-def check_scenario(src_s, scn, k_edge=400, k_in=9):
+def check_scenario(src_s, scn, k_edge=400, k_in=9, src_obj=None):
     """All clauses of the property that apply to one request.  Returns (failures, facts):
     failures = list of (clause, detail); facts = numbers for the evidence."""
     import numpy as np
 
-    src = mk_src(src_s)
+    src = mk_src(src_s) if src_obj is None else src_obj
     fails, facts = [], {}
     rr = scn["rr"]
     hook = None
@@ -1004,7 +1021,7 @@ def check_scenario(src_s, scn, k_edge=400, k_in=9):
                                            f"result shape {tuple(dst.shape)} res ({float(ax):.6g}, {float(ay):.6g})"))
     # --- resolution
     if scn["shape"] is None:
-        same_units = src.crs.units == dst.crs.units
+        same_units = ref_same_units(src.crs, dst.crs)
         rq = scn["resolution"]
         want = None
         if rq == "same" or (rq == "auto" and same_units):
@@ -1141,6 +1158,18 @@ def search_sources(tier):
         ["EPSG:4326", "EPSG:3857"])
     add("continent-strip-ns-albers", GeoBox(wh_(256, 380000), Affine(10, 0, 1500000, 0, -10, -1100000), "EPSG:3577"),
         ["EPSG:4326", "EPSG:6933"])
+    # exactly vertical / horizontal source edges whose projected extreme is reached mid-edge (not at a corner):
+    # equator-straddling grids into pseudo-cylindrical / equal-area targets, central-meridian-straddling grids into
+    # transverse / conic ones.  Every edge of the footprint has to be densified, whatever its direction.
+    add("midedge-eq-4326", GeoBox.from_bbox([20, -30, 40, 30], "EPSG:4326", resolution=0.01), ["EPSG:8857", "ESRI:54008"])
+    add("midedge-eq-4326-tile", GeoBox.from_bbox([15.5, -3, 17.9, 3], "EPSG:4326", resolution=0.001),
+        ["utm", "ESRI:54008", "EPSG:8857", "EPSG:32633"])
+    add("midedge-eq-3857", GeoBox.from_bbox([-7000000, -3000000, -4000000, 3000000], "EPSG:3857", resolution=500),
+        ["ESRI:54008", "EPSG:8857"])
+    add("midedge-cm-4326", GeoBox.from_bbox([9, 40, 21, 55], "EPSG:4326", resolution=0.005),
+        ["EPSG:32633", "EPSG:3035", TMERC_CUSTOM])
+    add("midedge-cm-albers", GeoBox.from_bbox([-1500000, -4000000, 1500000, -2000000], "EPSG:3577", resolution=100),
+        ["EPSG:4326", "ESRI:54008"])
     # no EPSG code on source or target
     add("modis-sinu", GeoBox(wh_(1200, 1200), Affine(463.3127165, 0, 12500000.0, 0, -463.3127165, -2500000.0), SINU),
         [AEA_CUSTOM, SINU_RESPELLED, LAEA_CUSTOM, "EPSG:4326", "EPSG:3577"])
@@ -1218,6 +1247,109 @@ def extra_scenarios():
     g2 = GeoBox(wh_(300, 200), Affine(10, 0, 497040, 0, -10, 6002960), "EPSG:32633")    # far edges just above a grid line
     out.append(("tol-edge", src_spec(g2), scenario("EPSG:32633", 10000.0, tol=0.0)))
     return out
+
+
+def p_scenario(src_s, scn, k_edge=1200):
+    fails, facts = check_scenario(src_s, scn, k_edge=k_edge)
+    return (not fails), "; ".join(f"[{c}] {d}" for c, d in fails) or f"holds {facts}"
+
+
+def p_held(hist, specs, src_s, scns):
+    """a long-lived source grid: the GeoBox (and so its CRS object) is built BEFORE the process history `hist`,
+    the requests are made afterwards with that same object, towards CRSs the process has never seen"""
+    src = mk_src(src_s)
+    _ = src.geographic_extent
+    crshist.perturb(tuple(hist), tuple(specs))
+    from odc.geo.crs import CRS
+
+    # the application builds its target CRS objects up front (and keeps them), then asks for the output grids
+    targets = [CRS(scn["crs"]) for scn in scns]      # noqa: F841 - kept alive on purpose
+    bad = []
+    for scn in scns:
+        try:
+            fails, _facts = check_scenario(src_s, scn, k_edge=600, src_obj=src)
+        except Exception as e:  # noqa: BLE001
+            fails = [("raises", f"{type(e).__name__}: {e}")]
+        if fails:
+            bad.append(f"{scn['crs']}: " + "; ".join(f"[{c}] {d}" for c, d in fails))
+    return (not bad), " | ".join(bad[:3]) or "holds"
+
+
+def fresh_targets(lon, lat, n, salt):
+    """n custom CRSs around (lon, lat) that nothing else in the process constructs"""
+    out = []
+    for i in range(n):
+        if i % 2:
+            out.append(f"+proj=tmerc +lat_0={lat + (i % 5)} +lon_0={lon + 0.25 * i - 1} +k=0.9999 +x_0={1000 + salt} +y_0={i} "
+                       f"+ellps=WGS84 +units=m +no_defs")
+        else:
+            out.append(f"+proj=laea +lat_0={lat - (i % 3)} +lon_0={lon + 0.5 * i - 2} +x_0={salt} +y_0={i} +ellps=GRS80 +units=m +no_defs")
+    return out
+
+
+PREDICATES = {"scenario": p_scenario, "held": p_held}
+PREDICATES["after_history"] = crshist.after_history(PREDICATES)
+
+# CRS alphabets of the history blocks (spelled exactly as the cases spell them)
+HIST_A_SPECS = ["EPSG:4326", "EPSG:3857", "EPSG:3577", "EPSG:32630", "EPSG:32755", "EPSG:6933", "EPSG:3035", "EPSG:32633"]
+HIST_B_SPECS = ["EPSG:3577", "EPSG:32755", "EPSG:3857", "EPSG:4326", "EPSG:28355"]
+
+
+def history_cases(tier):
+    """cross-CRS requests re-run after process-history perturbations of the CRS layer.  Run FIRST in the process:
+    a memo keyed too coarsely is decided by whoever asks first."""
+    srcs = {l: s for l, s, _ in search_sources(tier)}
+    a = [("s2-tile-utm", "EPSG:4326"), ("small-4326", "EPSG:3577"), ("small-4326", "EPSG:3857"), ("albers-tile", "EPSG:4326"),
+         ("landsat-utm-south", "EPSG:4326"), ("mercator-europe", "EPSG:3035"), ("rot25-4326", "EPSG:32632")]
+    # same units (metre) between an EPSG coded CRS and a custom one, and between custom ones: default resolution = source's
+    b = [("albers-tile", AEA_CUSTOM), ("custom-albers", "EPSG:3577"), ("modis-sinu", AEA_CUSTOM), ("albers-tile", LAEA_CUSTOM),
+         ("landsat-utm-south", "+proj=utm +zone=55 +south +ellps=GRS80 +units=m +no_defs"), ("custom-albers", SINU),
+         ("small-4326", AEA_CUSTOM), ("landsat-utm-south", "EPSG:28355"), ("albers-tile", "EPSG:4326"), ("small-4326", "EPSG:32755")]
+    out = []
+    for hist, specs, pairs in ((("authority-order-first",), HIST_A_SPECS, a), (("queries-first", "churn"), HIST_B_SPECS, b)):
+        cs = []
+        for lbl, crs in pairs:
+            for o in (dict(), dict(resolution="same", tol=0.0, anchor=["str", "center"])):
+                cs.append((lbl, srcs[lbl], scenario(crs, **o)))
+        out.append((hist, specs, cs))
+    return out
+
+
+def run_histories(out, tier):
+    found = {}
+    for hist, specs, cs in history_cases(tier):
+        crshist.perturb(hist, specs)
+        for lbl, src_s, scn in cs:
+            try:
+                ok, detail = PREDICATES["scenario"](src_s, scn)
+            except Exception as e:  # noqa: BLE001
+                ok, detail = False, f"raised {type(e).__name__}: {e}"
+            out.count("after_history:" + "+".join(hist))
+            out.case(("after", hist, src_s, scn), True)
+            key = "c11:after_history:" + "+".join(hist)
+            if not ok and key not in found:
+                found[key] = True
+                out.violation(key, f"after {hist}: {lbl} -> {scn['crs']} {scn}: {detail}",
+                              {"predicate": "after_history", "args": [list(hist), list(specs), "scenario", [src_s, scn]],
+                               "observed": detail})
+
+
+def run_held(out, tier):
+    """sources that outlive a process history (CRS churn beyond any cache bound), then requests to unseen CRSs"""
+    srcs = {l: s for l, s, _ in search_sources(tier)}
+    blocks = [("small-4326", 148.25, -35.75, 1), ("s2-tile-utm", -5.7, 35.6, 2)]
+    if tier != "quick":
+        blocks += [("albers-tile", 148.0, -35.0, 3), ("rot25-4326", 10.2, 49.9, 4)]
+    for lbl, lon, lat, salt in blocks:
+        scns = [scenario(t, resolution=rq) for t, rq in zip(fresh_targets(lon, lat, 12, salt), itertools.cycle(["auto", "fit", "same"]))]
+        hist, specs = ["churn"], []
+        ok, detail = p_held(hist, specs, srcs[lbl], scns)
+        out.count("held-after-churn", len(scns))
+        out.case(("held", lbl, salt), True)
+        if not ok:
+            out.violation("c11:held-source-after-history", f"{lbl} built before {hist}, then requests to new CRSs: {detail}",
+                          {"predicate": "held", "args": [hist, specs, srcs[lbl], scns], "observed": detail})
+            break
 
 
 def search(out, tier):
@@ -1325,6 +1457,8 @@ def run(out, tier, scratch):
         "pyproj CRS equality / units / UTM database answers are taken as observed (CRSs are integers in the model)",
         "exact rational model of binary64: correspondence inputs are restricted to values on which every float operation is exact",
     ]
+    run_histories(out, tier)          # first: nothing else has touched the CRS layer of this process yet
+    run_held(out, tier)
     reg = Registry()
     leaf = gen_leaf_cases(out, tier, reg)
     utm = gen_utm_cases(out, tier, reg)
@@ -1336,10 +1470,31 @@ def run(out, tier, scratch):
     if fails:
         detail = "model and implementation differ on: " + " | ".join(cases[i][:1500] for i in fails[:4])
     out.oblige("correspondence:Model.OutGeobox vs odc.geo (overlap, geobox, math, crs)", "correspondence", not fails, detail)
+    # a disagreeing compute_output_geobox case is judged by the property predicate as well: if it violates the
+    # property the disagreement itself is the concrete replay
+    off = len(leaf) + len(utm) + len(fpc)
+    done = 0
+    for i in fails:
+        if i < off or done >= 8:
+            continue
+        info = infos[i - off]
+        done += 1
+        try:
+            ok, why = p_scenario(info["src"], info["scn"])
+        except Exception as e:  # noqa: BLE001
+            ok, why = True, ""      # error paths of the malformed stream are not property violations
+        if not ok:
+            out.violation("c11:correspondence-case", f"{info['src']} {info['scn']}: {why}",
+                          {"predicate": "scenario", "src": info["src"], "scn": info["scn"], "observed": why})
+            break
     search(out, tier)
 
 
 def replay(rp) -> int:
+    if rp.get("predicate") in ("after_history", "held"):
+        ok, detail = PREDICATES[rp["predicate"]](*rp["args"])
+        print(f"replay {rp['predicate']} {rp['args'][0]}: {'holds' if ok else 'FAILS'}: {detail}")
+        return 0 if ok else 1
     fails, facts = check_scenario(rp["src"], rp["scn"], k_edge=2000)
     print(f"replay {rp['src']} {rp['scn']}: {'holds' if not fails else 'FAILS'}: {fails} {facts}")
     return 0 if not fails else 1
